@@ -29,6 +29,10 @@ enum Scenario {
     ClientAbandonThen { kind: Kind, k: usize, then: Then },
     /// many concurrent writers (calls, every fourth a notify) with pads cycling over the boundary classes
     ManyWriters { kind: Kind, n: usize, stall: Option<usize> },
+    /// blocking Client over TCP with a write timeout and a peer that is not reading: notifies of `fill` pad bytes
+    /// until one is interrupted by the timeout, then (peer still stalled) one of `then` pad bytes, then the peer
+    /// resumes and two more small notifies are sent
+    BlockingClientTimeoutSeq { fill: usize, then: usize },
     /// AsyncServer with a write timeout: response stalls after `k` bytes past the deadline
     AsyncServerWriteTimeout { k: usize, pipelined: bool },
     /// AsyncServer, pipelined requests, response stream stalled after `k` bytes then released;
@@ -123,6 +127,9 @@ fn scenarios(tier: Tier) -> Vec<Scenario> {
                 v.push(Scenario::ManyWriters { kind, n, stall });
             }
         }
+    }
+    for (fill, then) in [(7000usize, 0usize), (7000, 70_000), (20_000, 0), (100, 70_000), (8100, 8200)] {
+        v.push(Scenario::BlockingClientTimeoutSeq { fill, then });
     }
     v
 }
@@ -671,6 +678,84 @@ fn blocking_client_write_timeout() -> (Bad, u64) {
     (bad, flags | 4096)
 }
 
+
+/// Real sockets and real time: a finding must reproduce in a second execution of the same scenario.
+fn blocking_client_timeout_seq(fill: usize, then: usize) -> (Bad, u64) {
+    let (bad, flags) = blocking_client_timeout_seq_once(fill, then);
+    if bad.is_empty() {
+        return (bad, flags);
+    }
+    let (again, _) = blocking_client_timeout_seq_once(fill, then);
+    (bad.into_iter().filter(|(k, _)| again.iter().any(|(k2, _)| k2 == k)).collect(), flags)
+}
+
+fn blocking_client_timeout_seq_once(fill: usize, then: usize) -> (Bad, u64) {
+    let mut bad = Bad::new();
+    let ctx = format!("blocking Client set_write_timeout(200 ms), peer not reading: notifies with {fill} pad bytes until one is interrupted, then one with {then} pad bytes, then the peer resumes and two small notifies follow");
+    let listener = match std::net::TcpListener::bind("127.0.0.1:0") {
+        Ok(l) => l,
+        Err(e) => return (vec![("C05:harness".into(), format!("bind: {e}"))], 0),
+    };
+    let addr = listener.local_addr().unwrap();
+    let (go_tx, go_rx) = std::sync::mpsc::channel::<()>();
+    let peer = std::thread::spawn(move || -> Vec<u8> {
+        let (mut s, _) = listener.accept().expect("accept");
+        let _ = go_rx.recv();
+        s.set_read_timeout(Some(Duration::from_secs(10))).ok();
+        let mut all = Vec::new();
+        let _ = s.read_to_end(&mut all);
+        all
+    });
+    let client = match repe::Client::connect(addr) {
+        Ok(c) => c,
+        Err(e) => return (vec![("C05:harness".into(), format!("connect: {e}"))], 0),
+    };
+    client.set_write_timeout(Some(Duration::from_millis(200))).expect("set_write_timeout");
+    let body = |tag: u64, pad: usize| json!({"p": "x".repeat(pad), "t": tag});
+    let filler = body(1, fill);
+    let mut sent_ok = 0u64;
+    let mut interrupted = false;
+    for _ in 0..400_000 {
+        match client.notify_json("/p", &filler) {
+            Ok(()) => sent_ok += 1,
+            Err(_) => {
+                interrupted = true;
+                break;
+            }
+        }
+    }
+    let mut flags = 32768;
+    if interrupted {
+        flags |= 65536;
+    }
+    let r_then = client.notify_json("/p", &body(2, then));
+    go_tx.send(()).ok();
+    // give the peer time to drain what the kernel holds, so that a connection wrongly kept open can write again
+    std::thread::sleep(Duration::from_millis(400));
+    let r3 = client.notify_json("/p", &body(3, 0));
+    let r4 = client.notify_json("/p", &body(4, 0));
+    drop(client);
+    let wire = peer.join().unwrap_or_default();
+    let bodies: Vec<Vec<u8>> = [filler.clone(), body(2, then), body(3, 0), body(4, 0)].iter().map(|b| serde_json::to_vec(b).unwrap()).collect();
+    let results = format!("{sent_ok} notifies accepted, interrupted={interrupted}, then {:?}, {:?}, {:?}", r_then.as_ref().map_err(|e| e.to_string()), r3.as_ref().map_err(|e| e.to_string()), r4.as_ref().map_err(|e| e.to_string()));
+    if let Err(e) = check_client_stream(&wire, &bodies) {
+        bad.push(("C05:Client:bytes-after-timed-out-write".into(), format!("{ctx}: {results}; peer received {} bytes: {e}", wire.len())));
+    } else if interrupted {
+        // the interrupted write must not be followed by further frames: none of the later notifies may appear
+        let mut off = 0;
+        while off + 48 <= wire.len() {
+            let h = frames::Hdr::decode_raw(&wire[off..]).unwrap();
+            let (q, b) = (h.query_length as usize, h.body_length as usize);
+            if b != bodies[0].len() {
+                bad.push(("C05:Client:frames-after-timed-out-write".into(), format!("{ctx}: {results}; a frame of a notify sent AFTER the interrupted one (body length {b}) is on the wire at offset {off}: the connection was not failed")));
+                break;
+            }
+            off += 48 + q + b;
+        }
+    }
+    (bad, flags)
+}
+
 fn run_one(rt: &tokio::runtime::Runtime, sc: &Scenario) -> (Bad, u64) {
     match sc {
         Scenario::WithApi(api, inner) => {
@@ -693,6 +778,7 @@ fn run_one(rt: &tokio::runtime::Runtime, sc: &Scenario) -> (Bad, u64) {
         Scenario::BlockingServerWriteTimeout => blocking_server_write_timeout(),
         Scenario::BlockingServerLarge => blocking_server_large(),
         Scenario::BlockingClientWriteTimeout => blocking_client_write_timeout(),
+        Scenario::BlockingClientTimeoutSeq { fill, then } => blocking_client_timeout_seq(*fill, *then),
     }
 }
 
@@ -712,7 +798,7 @@ pub fn run(tier: Tier) -> ! {
         |(rt, bad, flagc, n), i| {
             let (b, flags) = run_one(rt, &all[i as usize]);
             *n += 1;
-            for bit in 0..15 {
+            for bit in 0..17 {
                 if flags & (1 << bit) != 0 {
                     *flagc.entry(bit).or_insert(0) += 1;
                 }
@@ -737,19 +823,19 @@ pub fn run(tier: Tier) -> ! {
         ctx.violation(k, w, json!({"scenario": format!("{:?}", all[i]), "index": i, "tier": tier.name()}));
     }
     let g = |b: u64| flagc.get(&b).copied().unwrap_or(0);
-    if !ctx.has_violation() && [0u64, 1, 2, 3, 4, 5, 6, 7, 9, 10, 11, 12, 13, 14].iter().any(|b| g(*b) == 0) {
+    if !ctx.has_violation() && [0u64, 1, 2, 3, 4, 5, 6, 7, 9, 10, 11, 12, 13, 14, 15, 16].iter().any(|b| g(*b) == 0) {
         ctx.machinery(format!("vacuous exploration: a scenario family never ran or never stalled: {flagc:?}"));
     }
     let coverage = json!({
         "evaluations": executed,
         "distinct_nontrivial": all.len(),
-        "rule": "forced-stall scripts: (a) 2-4 concurrent calls + a notify on AsyncClient / WebSocketClient with payload sizes straddling the 8 KiB writer buffer, the peer accepting exactly k bytes (k over header/query/buffer boundary classes) before resuming; (b) a large call abandoned after exactly k accepted bytes, followed by another call and then by a notify / a forwarded notify / a batch; (a') 8 and 32 concurrent writers (calls and notifies, pads cycling over the buffer-boundary classes) against a peer that stalls at offset k and then reads a few bytes at a time, or accepts at most 7 / 4096 bytes per write; (c) AsyncServer with a 1 s write timeout whose response stalls after k bytes past the deadline, and pipelined responses stalled then released; (d) WebSocket server with concurrent off-reader responses and handler-pushed notifies against a stalled peer; (e) blocking Server over loopback TCP with 24 MiB responses (peer stops reading past a 300 ms write timeout; three connections pipelining). Everything the peer receives must parse into whole frames, and nothing may follow an interrupted write.",
+        "rule": "forced-stall scripts: (a) 2-4 concurrent calls + a notify on AsyncClient / WebSocketClient with payload sizes straddling the 8 KiB writer buffer, the peer accepting exactly k bytes (k over header/query/buffer boundary classes) before resuming; (b) a large call abandoned after exactly k accepted bytes, followed by another call and then by a notify / a forwarded notify / a batch; (a') 8 and 32 concurrent writers (calls and notifies, pads cycling over the buffer-boundary classes) against a peer that stalls at offset k and then reads a few bytes at a time, or accepts at most 7 / 4096 bytes per write; (c) AsyncServer with a 1 s write timeout whose response stalls after k bytes past the deadline, and pipelined responses stalled then released; (d) WebSocket server with concurrent off-reader responses and handler-pushed notifies against a stalled peer; (b') blocking Client over loopback TCP with a 200 ms write timeout against a peer that is not reading: notifies of 100 / 7000 / 8100 / 20000 pad bytes until one is interrupted, then one of 0 / 8200 / 70000 pad bytes, the peer resumes, two more notifies: whole frames only and none of the later notifies on the wire; (e) blocking Server over loopback TCP with 24 MiB responses (peer stops reading past a 300 ms write timeout; three connections pipelining). Everything the peer receives must parse into whole frames, and nothing may follow an interrupted write.",
         "samples": samples.take(),
         "exhaustive": executed == all.len() as u64,
         "nonvacuity": {
             "client_writers_really_stalled": g(0), "client_writer_scenarios": g(1), "abandon_really_mid_write": g(2), "abandon_scenarios": g(3),
             "async_server_timeout_really_stalled": g(4), "async_server_timeout_scenarios": g(5), "async_server_stall_scenarios": g(6),
-            "ws_server_mixed_scenarios": g(7), "blocking_server_response_really_torn_by_timeout": g(8), "blocking_server_timeout_scenarios": g(9), "blocking_server_large_scenarios": g(10), "blocking_client_large_write_really_interrupted": g(11), "blocking_client_timeout_scenarios": g(12), "abandon_then_other_sender_scenarios": g(13), "many_writer_scenarios(8,32)": g(14),
+            "ws_server_mixed_scenarios": g(7), "blocking_server_response_really_torn_by_timeout": g(8), "blocking_server_timeout_scenarios": g(9), "blocking_server_large_scenarios": g(10), "blocking_client_large_write_really_interrupted": g(11), "blocking_client_timeout_scenarios": g(12), "abandon_then_other_sender_scenarios": g(13), "many_writer_scenarios(8,32)": g(14), "blocking_client_timeout_sequences": g(15), "blocking_client_small_frame_really_interrupted": g(16),
         },
     });
     ctx.finish(
